@@ -117,7 +117,7 @@ def parse(s):
     return v
 
 
-HEADER = """From Coq Require Import List ZArith QArith Bool String.
+HEADER = """From Coq Require Import List ZArith QArith Bool.
 Import ListNotations.
 Set Printing Depth 10000000.
 Set Printing Width 1000000.
